@@ -6,50 +6,51 @@ MORE = {
          "br_table selection and stride, select, eqz, memory.grow, enforced tick/track_call/host call, dynamic call_indirect type test), "
          "agreement of the operands written after every opcode emission site with what the interpreter's arm reads, the providers-stack "
          "effect of every compiler arm against the instruction's type, conditional copies, and that the providers stack is changed only "
-         "through its own operations. Two miscompilations of value-carrying br_if are recorded as known findings.",
+         "through its own operations. Two miscompilations of value-carrying br_if are recorded as known findings. Round 2: br_table selectors are compared at 32 bits, operands are narrowed only by i32.wrap_i64 and sign-extended only by i64.extend_i32_s in the interpreter loop; a third compiler hazard (local.set inside conditional code) is a known finding.",
          "typing/stack-effect tables against the Wasm specification, compiler/interpreter emission-segment agreement, condition-under-which-reached analysis"),
  "C02": ("Also decided: no successful return of the flush helper avoids the charge unless the accumulated energy is zero; from the "
-         "instruction loop every successful return passes a flush of what is pending; the compiler turns every TickEnergy into its own instruction.",
+         "instruction loop every successful return passes a flush of what is pending; the compiler turns every TickEnergy into its own instruction. Round 2: the function-entry charge counts declared locals; no function is transformed after the import/type lists were shifted.",
          "must-pass-through analysis on the CFG"),
  "C03": ("Also decided: a node migrated into a newer generation gets a fresh entry slot; every in-place change of a node's value or stem "
-         "is accompanied by clearing its origin on the same path.", "def-use rules through closures"),
+         "is accompanied by clearing its origin on the same path. Round 2: the shared trie is normalised to the caller's generation before any use; child-list changes clear the origin of the same node; every pushed generation carries the recorded checkpoint; persistent originals are reused only if nothing changed; path compression iff no value and one child; in-place value writes only for Entry::Mutable.", "def-use rules through closures"),
  "C04": ("Also decided: migration writes and keeps only references handed out by the target store; every item of the stored, migrated and "
          "serialised node encodings has its own write site and its own enforced read site; tag-byte bits and the inline/indirect boundary "
-         "agree between writers and readers; odd stems mask their padding nibble.", "format item tables with bipartite matching of items to sites"),
- "C05": ("Also decided: group elements and scalars are decoded with the validating canonical decoders (shared with C20).", "required/forbidden-callee rules"),
+         "agree between writers and readers; odd stems mask their padding nibble. Round 2: the marked-as-modified and freeze rules are shared with C03 (a changed node that keeps its origin is frozen as its old self); freeze_value reports a freshly created link as changed.", "format item tables with bipartite matching of items to sites"),
+ "C05": ("Also decided: group elements and scalars are decoded with the validating canonical decoders (shared with C20). Round 2: presence bits read their field on the set branch; zero-initialised decoder buffers are filled; counts of short-read primitives are compared with the declared length.", "required/forbidden-callee rules"),
  "C06": ("Also decided: the signature and key maps are iterated whole; no compared length is narrowed; equality tests refuse on difference; "
-         "the number of refusing comparisons does not fall below the frozen count.", "sweeps over all verifier-side comparisons"),
+         "the number of refusing comparisons does not fall below the frozen count. Round 2: protocol cost constants and the base-cost formula; declared payload size is the size of the encoding; the sign digest is computed after the last header change; the signer uses thresholds as counts; unconditional-check counts.", "sweeps over all verifier-side comparisons"),
  "C07": ("Also decided: statement/response vectors are zipped only after comparing exactly their two lengths; narrowed-length, equality-polarity "
-         "and refusing-comparison-floor sweeps.", "sweeps over all verifier-side comparisons"),
- "C08": ("Also decided: statement/proof zips are length-checked; narrowed-length, equality-polarity and refusing-comparison-floor sweeps.",
+         "and refusing-comparison-floor sweeps. Round 2: transcript entries of public() are unconditional; a response entry missing for a statement key refuses (vcom_eq soundness defect found and fixed); loop-carried weights are updated from themselves.", "sweeps over all verifier-side comparisons"),
+ "C08": ("Also decided: statement/proof zips are length-checked; narrowed-length, equality-polarity and refusing-comparison-floor sweeps. Round 2: verifier transcript entries unconditional; tags reach encode_tags with their multiplicity; unconditional-check counts.",
          "sweeps over all verifier-side comparisons"),
  "C09": ("Also decided: for all 110 instructions the validator's ordered operand/control-stack events (pops, pushes, memory/table/alignment "
          "requirements, label and frame checks, each with the relation under which it refuses) equal the table written from the WebAssembly "
          "validation rules; the validation primitives follow the specification's algorithm; alignment bounds; protocol maxima are inclusive; "
          "segment ends and function indices are bounded exactly; the parser's slice bounds, section order and trailing-data test; header words; "
          "export conditions are all necessary, duplicate and flag-gated imports are refused. Acceptance 'iff well-typed' as a whole, "
-         "termination and runtime bounds safety remain NOT decided.", "typing table of the validator against the WebAssembly validation algorithm"),
+         "termination and runtime bounds safety remain NOT decided. Round 2: every protocol limit is enforced on every accepting path; two-ended input slices are ordered; the validation stacks are shortened only by their primitives.", "typing table of the validator against the WebAssembly validation algorithm"),
  "C10": ("Also decided: a failed read inside a length-driven loop leaves the loop; non-exact reads are bounded by the remaining length; the "
-         "one-byte enum tag is chosen by the number of variants in both directions; every length prefix is len() of what follows.",
+         "one-byte enum tag is chosen by the number of variants in both directions; every length prefix is len() of what follows. Round 2: LEB128 big integers are accumulated in arbitrary precision.",
          "loop-enforcement and guard-agreement rules"),
  "C11": ("Also decided: every vector of a proof is consumed whole; the number of inner-product rounds is tied to the vector length "
-         "(n = 2^k); narrowed-length, equality-polarity and refusing-comparison-floor sweeps.", "coverage rules over proof components"),
+         "(n = 2^k); narrowed-length, equality-polarity and refusing-comparison-floor sweeps. Round 2: transcript entries unconditional except the frozen version-gated ones; loop-carried weights; unconditional-check counts.", "coverage rules over proof components"),
  "C12": ("Also decided: each chunk-statement vector of the accounting proof is zipped with its own response vector after comparing exactly "
-         "those lengths; narrowed-length and equality-polarity sweeps.", "zip-length rule"),
+         "those lengths; narrowed-length and equality-polarity sweeps. Round 2: aggregate/combine results derive from both operands; loop-carried weights; verifier transcript entries unconditional.", "zip-length rule"),
  "C13": ("Also decided: every host state field is carried over when the host is saved at an interrupt; the response is written at "
-         "locals_base + return_value_loc.", "conversion coverage"),
+         "locals_base + return_value_loc. Round 2: suspension rule independent of local names; success responses carry the state-updated bit; pending logs are taken only when the interrupt ends a section; typed item sequences follow iterator-consumer closures.", "conversion coverage"),
  "C14": ("Also decided: host ABI tables (declared types, tags, dispatch, stack use); every offset-vs-memory-length test is exact for a slice it "
          "guards; range starts of host-side data are constant, clamped or non-strictly compared with a length; ranges clamped with min(.., len) "
          "are ordered by an exact test; any call handed a contract-sized slice of memory is preceded by a charge; the log limit is decided "
-         "path by path; combinator operands must exist.", "exactness of bounds tests (linear forms), path-condition enumeration"),
+         "path by path; combinator operands must exist. Round 2: memory arguments are tested on every normal return; ranges from checking helpers are proved through summaries; limits clamp the end position (min over the sum); no argument is narrowed below 32 bits.", "exactness of bounds tests (linear forms), path-condition enumeration"),
  "C15": ("Also decided: a lock count becomes count - 1 only under count > 1; an ancestor lock-trie node is freed only when childless and "
          "unlocked; the root pointer is cleared only when the root node is gone; the iterator visits children[i] only under i < len and "
-         "resumes at i + 1.", "condition-under-which-reached analysis"),
- "C16": ("Also decided: receive names are cut at the first '.', durations at the first non-digit.", "required-callee rule"),
+         "resumes at i + 1. Round 2: the lock is recorded on every successful return of insert; the lock query tests every visited node; the iterator descends only through make_owned.", "condition-under-which-reached analysis"),
+ "C16": ("Also decided: receive names are cut at the first '.', durations at the first non-digit. Round 2: documented grammar of the name validators; SerialCtx and element-helper pairs; input-driven ranges of fixed-size buffers stay in bounds; a writer arm without the tag of its siblings is a mismatch.", "required-callee rule"),
  "C17": ("Also decided: decoders never discard the sign of a decoded integer; the parsed prefix returned by a text segment is inspected; a "
-         "fixed-size destination must be filled by what was actually read.", "def-use rules"),
+         "fixed-size destination must be filled by what was actually read. Round 2: the filled test accepts equivalent forms; input iterators are exhausted.", "def-use rules"),
  "C18": ("Also decided: every field of the verifier-supplied verification material is read and used; lookups of revealed attributes are "
-         "enforced; narrowed-length, equality-polarity and refusing-comparison-floor sweeps.", "coverage of verifier inputs"),
+         "enforced; narrowed-length, equality-polarity and refusing-comparison-floor sweeps. Round 2: verifier transcript entries unconditional; whole-collection equalities and unconditional checks are counted per module.", "coverage of verifier inputs"),
  "C19": ("Also decided: the duplicate search is complete (no partitioning of the sorted hashes); narrowed-length, equality-polarity and "
-         "refusing-comparison-floor sweeps.", "idiom table for the duplicate scan"),
+         "refusing-comparison-floor sweeps. Round 2: verifier transcript entries unconditional; unconditional-check counts.", "idiom table for the duplicate scan"),
+ "C20": ("Round 2: derivation paths contain every index parameter and differ by a literal; the index packing is proved injective bit by bit.", "round-2 rules"),
 }
